@@ -20,10 +20,10 @@ P = {
          "commit binding and hash collision freedom are hypotheses; soundness probabilities of sacrificed checks are not formalised. Known findings C04-a/b (challenge predetermined / reused) are listed, not repaired.", "4 C04"),
  "C05": ("C05_non_output_silent, C05_output_party_messages on the phase-list skeleton and C05_out_shares_recipients / C05_lambda_recipients / C05_slots_are_output_regs on the message-level proof model (any circuit, evaluator, output set); tie: recorded per-pair traffic of real runs equals the model pattern, every online message byte-equal to the proof model's.",
          "Ties are sampled (n in 2..4).", "4 C05"),
- "C06": ("C06_mask_bijective, C06_balanced_count (counting form of unbiasedness for both input values); tie: taps show the own share is drawn fresh, message-level reproduction of masked inputs; "
+ "C06": ("C06_mask_bijective, C06_balanced_count (counting form of unbiasedness for both input values), C06_check_blinded (the aBit consistency-check message is a bijective function of the discarded surplus bits for every value of the kept bits); tie: taps show the own share is drawn fresh, message-level reproduction of masked inputs and of the real fabitn check message from the tapped coefficient seed (Lean AES); "
          "statistical supporting run (balance, fresh delta/mask vector, canary).", "Entropy of rand::random is runtime behaviour no model can exhibit: observed, not proved.", "4 C06"),
- "C07": ("C07_mac_view_independent, C07_ashare_opening_independent (re-parametrisation: view identical under any alternative key), C07_cex_ashare_offset (pinned-tree leak); "
-         "tie: opened values of real fashare vs the Lean `opened` function; traffic scan for the tapped key (1-/2-element XOR sets, both byte orders).",
+ "C07": ("C07_mac_view_independent, C07_ashare_opening_independent (re-parametrisation: view identical under any alternative key), C07_cex_ashare_offset (pinned-tree leak), C07_cex_laand_e_lie (known finding C07-b: a lie about the LaAND e bit makes the opened check value leak the key before the abort); "
+         "tie: opened values of real fashare vs the Lean `opened` function; traffic scan for the tapped key (1-/2-element XOR sets, both byte orders); LaAND e-bit lies replayed on the real code.",
          "Hashed and encrypted values are opaque atoms (secrecy through BLAKE3/AES/ChaCha20 assumed).", "4 C07"),
  "C08": ("decVec_bounded/decN_length (decoder total, allocation bounded by bytes received), handler no-panic theorems with explicit panic outcomes for the aShare decommitments, d-values and the masked-inputs merge (C08_masked_no_panic) plus counterexamples for the old handlers, presence of the length guards (site inventory); tie/search: every message index x byte-level class, structure-aware classes incl. optional fields present/absent, crash points, on the real honest party under catch_unwind with a counting allocator and exact hang detection.",
          "Panics inside dependencies and real allocator behaviour are outside the model; wall-clock boundedness is observed.", "4 C08"),
@@ -33,8 +33,8 @@ P = {
          "The KOS/aBit messages themselves are not recomputed by the model (result-level tie for fashare outputs).", "4 C10"),
  "C11": ("C11_cot, column_relation (correlated message at every index, hence every length), C11_in_step, C11_kos_check_honest_spec with carry-less multiplication proved bilinear and commutative; "
          "tie: real KOS sessions through the __bench re-exports at boundary and random lengths, both session orders.", "PRG/tweakable hash arbitrary functions; base OT ideal.", "4 C11"),
- "C12": ("C12_phased_no_deadlock, C12_polytune(_sequential), C12_phased_schedule_independent (any n, phases, capacity >= 1), C12_same_object; tie: the phase list is the object compared with the wire "
-         "(pattern tie) and the program-order tie (issue/completion order of every send/receive per peer); real futures under adversarial schedules and capacities 1/2/1024 with exact deadlock detection.",
+ "C12": ("C12_phased_no_deadlock, C12_polytune(_sequential), C12_phased_schedule_independent (any n, phases, capacity >= 1), C12_same_object, C12_stream_fits_peer_buffer (for every AND count the garbled-gate stream plus the wire-shares message fits the per-peer buffer of the server's command loop; batch-size functions and buffer capacity regenerated from the source); tie: the phase list is the object compared with the wire "
+         "(pattern tie) and the program-order tie (issue/completion order of every send/receive per peer); real futures under adversarial schedules and capacities 1/2/1024 with exact deadlock detection; at the server level three real PolicyState actors with one directed link delivered only at quiescence (every link, every leader, circuits with 3 and with 9 chunks).",
          "Phased.Ok for the real program order is supported by the order tie only; tokio's scheduler is represented by the harness executor.", "4 C12"),
  "C13": ("C13_n2_reachable_ok / C13_n2_all_setups: for all 32 two-party setups every state reachable under any delivery order is good-final or has a successor (kernel-checked certificates, closed_covers); "
          "thorough adds termination (C13_n2_terminates) and n=3 instances; tie: every observed step of real PolicyState actors replayed through the Lean step function; oracle on real runs.",
@@ -43,7 +43,7 @@ P = {
          "steps replayed through the Lean step function.", "Single-actor theorems; network effect observed by the harness.", "4 C13-C17"),
  "C15": ("C15_current_all_schedules (every schedule of any length of actor and task: a replied cancel implies exactly one notification, task ended, permit released; never two notifications; no stuck state), counterexamples for the old single-Notify design; tie: cancel injected at quiescence and in the compile window on real actors with a destination whose notification takes time, the destination's content is snapshotted at the moment cancel returns.",
          "tokio Notify/oneshot/select semantics as documented; the Lean model is hand-written and validated by the oracle runs only; multi-threaded runtime not modelled.", "4 C13-C17"),
- "C16": ("C16_mismatch_after_schedule, C16_mismatch_before_schedule, C16_illtyped on the step function; tie: mismatch scenarios on real actors, both arrival orders, zero MPC messages, steps replayed through the model.",
+ "C16": ("C16_n2_mismatch_net (all 32 two-party setups with a mismatching follower, every delivery order: nobody ever runs, every terminal state has both schedule calls answered with an error), C16_mismatch_after_schedule, C16_mismatch_before_schedule, C16_illtyped on the step function; tie: mismatch scenarios on real actors (other program, near-collision programs, ill-typed, wrong leader, refused re-schedule carrying the leader's program), both arrival orders, zero MPC messages, steps replayed through the model.",
          "garble_lang::check and BLAKE3 equality are parameters.", "4 C13-C17"),
  "C17": ("C17_n2_failure_ok (all 32 two-party setups, every delivery order, any single failing validate/run/consts call: every reachable state is terminal with the caller stopped, permit-free and notified, or has a successor), C17_bound / C17_all_released (counting invariant for any number of policies on a host), network-level counterexamples for the old tree; tie: deterministic corpus and seeded RPC failures on real actors (2 and 3 parties), batches of 2..8 policies sharing semaphores with a permit snapshot at every actor step, every step replayed through the Lean step function.",
          "Finite statements for n=2 at network level; tokio Semaphore as modelled.", "4 C13-C17"),
